@@ -135,7 +135,15 @@ def build_init(case, X):
         pts = X[np.array(ini["idx"], dtype=int)]
     else:
         pts = np.array(ini["pts"], dtype=ini.get("pts_dtype", case["dtype"])).reshape(len(ini["pts"]), case["d"])
-    arg = pts.copy() if ini.get("container", "array") == "array" else [p.copy() for p in pts]
+    cont = ini.get("container", "array")
+    if cont == "array":
+        arg = pts.copy()
+    elif cont == "tuple":
+        arg = tuple(p.copy() for p in pts)
+    elif cont == "generator":
+        arg = (p.copy() for p in list(pts))       # a one-shot iterable (the documented type is "array-like")
+    else:
+        arg = [p.copy() for p in pts]
     return arg, pts
 
 
@@ -202,6 +210,8 @@ def call_lib(case, n_clusters="case", cutoff="case", tri="case", entry="case"):
                     est.cluster_radius = cutoff
             if init_arg is None and case.get("style") == "omit":
                 est.fit(X)
+            elif case.get("style") == "positional":
+                est.fit(X, init_arg)              # fit(X, init_centers): the documented order of the two parameters
             else:
                 est.fit(X, init_centers=init_arg)
             res = est.result_
@@ -403,7 +413,7 @@ def kc_case(draw, max_small=14, max_bulk=40, bulk_share=4, init_kinds=("none", "
     if kind == "frames":
         k0 = 1 if single_frame_init else draw(st.integers(1, min(3, n)))
         idx = draw(st.lists(st.integers(0, n - 1), min_size=k0, max_size=k0, unique=True))
-        init = {"kind": "frames", "idx": idx, "container": draw(st.sampled_from(["array", "list"]))}
+        init = {"kind": "frames", "idx": idx, "container": draw(st.sampled_from(["array", "list", "array", "list", "tuple", "generator"]))}
         init_cols = D[:, idx]
     elif kind == "points":
         k0 = draw(st.integers(1, 3))
@@ -421,7 +431,7 @@ def kc_case(draw, max_small=14, max_bulk=40, bulk_share=4, init_kinds=("none", "
         lab, _ = R.nearest_assign(cols)
         keep = [j for j in range(len(P)) if (lab == j).any()]      # every initial center must own a frame
         P = P[keep]
-        init = {"kind": "points", "pts": P.tolist(), "container": draw(st.sampled_from(["array", "list"]))}
+        init = {"kind": "points", "pts": P.tolist(), "container": draw(st.sampled_from(["array", "list", "array", "list", "tuple", "generator"]))}
         if frac:
             init["pts_dtype"] = "float64"
         init_cols = cols[:, keep]
@@ -505,7 +515,7 @@ def kc_case(draw, max_small=14, max_bulk=40, bulk_share=4, init_kinds=("none", "
             "n_clusters": n_clusters, "cutoff": cutoff, "tri": use_tri,
             "entry": draw(st.sampled_from(["function", "function", "class", "class_set_params", "class_setattr_refit",
                                           "class_set_params_refit"])),
-            "style": draw(st.sampled_from(["omit", "none"])),
+            "style": draw(st.sampled_from(["omit", "none", "positional"])),
             "layout": draw(st.sampled_from(["C", "C", "C", "F", "T", "colstride"])),
             "debug_log": draw(st.sampled_from([False, False, True])),
             "reuse_buffer": draw(st.sampled_from([False, False, True]))}
